@@ -24,20 +24,25 @@ inductive Cond where
 deriving Repr, Inhabited
 
 /-- `Details`: `genes` = keys of `features_by_id`, `withHits` = keys of `results_by_id`,
-    `hits g` = `results_by_id.get(g, [])` as (profile, 2·bitscore), `loc`, cutoff and
-    `circular_origin` (0 when falsy). -/
+    `hits g` = `results_by_id.get(g, [])` as (profile, 2·bitscore), the cutoff, and `dist g h` =
+    `get_distance_between_locations(loc g, loc h, wrap_point=circular_origin or None)`. -/
 structure Env where
   genes : List Gene
   withHits : List Gene
   hits : Gene → List (Prof × Int)
-  loc : Gene → Loc
+  dist : Gene → Gene → Int
   cutoff : Int
-  circ : Int
+
+/-- the environment `Details` builds: distances come from the location model
+    (`circ` = `circular_origin`, 0 when falsy) -/
+def Env.ofLocs (genes withHits : List Gene) (hits : Gene → List (Prof × Int)) (loc : Gene → Loc)
+    (cutoff circ : Int) : Env :=
+  { genes, withHits, hits, cutoff, dist := fun g h => getDistance (loc g) (loc h) circ }
 
 namespace Env
 /-- `Details.in_range` -/
 def inRange (e : Env) (g h : Gene) : Bool :=
-  decide (getDistance (e.loc g) (e.loc h) e.circ < e.cutoff)
+  decide (e.dist g h < e.cutoff)
 def profs (e : Env) (g : Gene) : List Prof := (e.hits g).map (·.1)
 /-- `name in details.possibilities` for the gene in focus -/
 def has (e : Env) (g : Gene) (p : Prof) : Bool := (e.profs g).contains p
